@@ -60,8 +60,10 @@ def main():
                                       "selected_unique", "enforcement_compared"))
 
 
-def build(tid, rty, tmpl, mech, depth, bl, res, ins, consts):
-    """returns (pre_src, unguarded_src, guarded_src, n_inputs) ; conditions are the last `depth` inputs before alt"""
+def build(tid, rty, tmpl, mech, depth, bl, res, ins, consts, rnd=None):
+    """returns (case, pre_src, unguarded_src, guarded_src).  Conditions c0 (outermost) .. c{depth-1} are the inputs after the
+    operands, then alt.  The outermost region uses `mech`; inner levels use a random mechanism each (mixed nesting).  After
+    every level the running result is re-selected, so the final `res` is the body's value iff all conditions hold, else alt."""
     from vf import opcases
     case = opcases.Case(tid, tmpl, bl, res, ins, consts, rty)
     n = len(ins)
@@ -69,53 +71,21 @@ def build(tid, rty, tmpl, mech, depth, bl, res, ins, consts):
     for d in range(depth):
         pre += "c%d = PrivValBool(I[%d])\n" % (d, n + d)
     pre += "alt = PrivVal(I[%d])\n" % (n + depth)
+    pre += "_ = BranchingValues()\n_.r = alt + 0\n"
     expr = case.expr
-    if rty is not None:
-        ung = "r = %s\n" % expr
-    else:
-        ung = "%s\n" % expr
-    conj = " & ".join("c%d" % d for d in range(depth))
-    if mech == "guarded":
-        lines = []
-        ind = ""
-        for d in range(depth):
-            lines.append("%s@guarded(c%d)" % (ind, d))
-            lines.append("%sdef _b%d():" % (ind, d))
-            ind += "    "
-        if rty is not None:
-            lines.append("%sr = %s" % (ind, expr))
-            lines.append("%sreturn r" % ind)
+    ung = ("r = %s\n" % expr) if rty is not None else ("%s\n" % expr)
+    mechs = [mech] + [(rnd.choice(MECHS) if rnd is not None else mech) for _ in range(depth - 1)]
+    lines = ["r = %s" % expr] if rty is not None else [expr, "r = alt"]
+    for d in range(depth - 1, -1, -1):
+        m = mechs[d]
+        body = ["    " + ln for ln in lines]
+        if m == "guarded":
+            lines = ["@guarded(c%d)" % d, "def _b%d():" % d] + body + ["    return r", "r = _b%d()" % d, "r = if_then_else(c%d, r, alt)" % d]
+        elif m == "lazy":
+            lines = ["def _t%d():" % d] + body + ["    return r", "r = if_then_else(c%d, _t%d, lambda: alt)" % (d, d)]
         else:
-            lines.append("%s%s" % (ind, expr))
-            lines.append("%sreturn None" % ind)
-        for d in range(depth - 1, 0, -1):
-            ind = "    " * d
-            lines.append("%sreturn _b%d()" % (ind, d))
-        lines.append("g = _b0()")
-        if rty is not None:
-            lines.append("cc = %s" % conj)
-            lines.append("res = if_then_else(cc, g, alt)")
-        g = "\n".join(lines) + "\n"
-    elif mech == "lazy":
-        body = expr if rty is not None else "(%s, alt)[1]" % expr
-        inner = "lambda: %s" % body
-        for d in range(depth - 1, 0, -1):
-            inner = "lambda: if_then_else(c%d, %s, lambda: alt)" % (d, inner)
-        g = "res = if_then_else(c0, %s, lambda: alt)\n" % inner
-    else:
-        lines = ["_ = BranchingValues()", "_.r = alt + 0"]
-        ind = ""
-        for d in range(depth):
-            lines.append("%sif _if(c%d, ctx=_):" % (ind, d))
-            ind += "    "
-        if rty is not None:
-            lines.append("%s_.r = %s" % (ind, expr))
-        else:
-            lines.append("%s%s" % (ind, expr))
-        for d in range(depth - 1, -1, -1):
-            lines.append("%s_endif(ctx=_)" % ("    " * d))
-        lines.append("res = _.r")
-        g = "\n".join(lines) + "\n"
+            lines = ["_.r = alt + 0", "if _if(c%d, ctx=_):" % d] + body + ["    _.r = r", "_endif(ctx=_)", "r = _.r"]
+    g = "\n".join(lines + ["res = r"]) + "\n"
     return case, pre, ung, g
 
 
@@ -181,11 +151,14 @@ def worker(job):
                 continue
             alt = rnd.randint(-3, 3)
             # baseline: unguarded on valid operands
-            case, pre, ung, gsrc = build(tid, rty, tmpl, mech, depth, bl, res, valid, consts)
+            brnd = random.Random(rnd.random())
+            mix_seed = brnd.random()
+            case, pre, ung, gsrc = build(tid, rty, tmpl, mech, depth, bl, res, valid, consts, random.Random(mix_seed))
             base_valid = run(G, N, pre + ung, valid + [1] * depth + [alt], bl, res, p)
             for oclass, ops in (("valid", valid), ("invalid", invalid)):
                 if ops is None:
                     continue
+                case, pre, ung, gsrc = build(tid, rty, tmpl, mech, depth, bl, res, ops, consts, random.Random(mix_seed))
                 U = base_valid if oclass == "valid" else run(G, N, pre + ung, ops + [1] * depth + [alt], bl, res, p)
                 for combo in itertools.product((1, 0), repeat=depth):
                     inputs = ops + list(combo) + [alt]
@@ -279,7 +252,7 @@ def solver_halves(R, capture, solve, N, tid, rty, tmpl, mech, depth, bl, res, va
         combo = [0] + [rnd.randint(0, 1) for _ in range(depth - 1)]
         rnd.shuffle(combo)
         ops = invalid if (invalid is not None and rnd.random() < 0.5) else valid
-        case, pre, ung, gsrc = build(tid, rty, tmpl, mech, depth, bl, res, ops, consts)
+        case, pre, ung, gsrc = build(tid, rty, tmpl, mech, depth, bl, res, ops, consts, rnd)
         cap = capture.capture(pre, gsrc, ["res"], ops + combo + [alt], N, bl, res, p=p)
         if cap.exc is None:
             r = solve.solve(cap.cons, cap.fixed, p, cap.result_lcs, maxleaves=40000)
@@ -297,7 +270,7 @@ def solver_halves(R, capture, solve, N, tid, rty, tmpl, mech, depth, bl, res, va
                                 src=pre + gsrc, inputs=ops + combo + [alt], bl=bl, res=res, p=p)
     # (b) true guard: enforcement with checks off equals unguarded enforcement (UNSAT <=> UNSAT)
     if invalid is not None:
-        case, pre, ung, gsrc = build(tid, rty, tmpl, mech, depth, bl, res, invalid, consts)
+        case, pre, ung, gsrc = build(tid, rty, tmpl, mech, depth, bl, res, invalid, consts, rnd)
         inputs = invalid + [1] * depth + [alt]
         cu = capture.capture(pre, ung, [], inputs, N, bl, res, p=p, ignore=True)
         cg = capture.capture(pre, gsrc, [], inputs, N, bl, res, p=p, ignore=True)
